@@ -97,6 +97,13 @@ def arithmetic_actions(has_P=True, has_d=False, scalars=SCALARS):
             st.sh["a"] = st.sh["a"] * c
         acts.append(Action(f"a=a.scale({c})", sc))
 
+    # the same kind of factor handed over in other accepted numeric types (0-d array, e.g. the result of a full contraction; single precision)
+    for tname, c in (("0-d array .6+.8j", np.array(0.6 + 0.8j)), ("np.complex64(.6-.8j)", np.complex64(0.6 - 0.8j))):
+        def sct(st, c=c):
+            st.regs["a"] = st.regs["a"].scale(c)
+            st.sh["a"] = st.sh["a"] * complex(c)
+        acts.append(Action(f"a=a.scale({tname})", sct))
+
     def sc_in(st):
         r = st.regs["b"].scale(-1.5, inplace=True)
         if r is not st.regs["b"]:
